@@ -203,6 +203,13 @@ func c01PagerDoc(href string) string {
 	t := &ora.Tok{}
 	h := strings.ReplaceAll(href, "&", "&amp;")
 	h2 := strings.Replace(h, "2", "3", 1)
+	if strings.HasPrefix(href, "ALL:") {
+		// every pager entry is a link, also the one for page 1
+		h = strings.ReplaceAll(href[4:], "&", "&amp;")
+		h2 = strings.Replace(h, "2", "3", 1)
+		h1 := strings.Replace(h, "2", "1", 1)
+		return "<html><head><title>" + ora.DefaultTitle + "</title></head><body><div><p>" + t.W(21) + "</p><p>" + t.W(22) + "</p></div><div class=\"pager\"><a href=\"" + h1 + "\">1</a> <a href=\"" + h + "\">2</a> <a href=\"" + h2 + "\">3</a></div></body></html>"
+	}
 	return "<html><head><title>" + ora.DefaultTitle + "</title></head><body><div><p>" + t.W(21) + "</p><p>" + t.W(22) + "</p></div><div class=\"pager\">1 <a href=\"" + h + "\">2</a> <a href=\"" + h2 + "\">3</a> <a href=\"" + h + "\">Next</a> <a href=\"" + h2 + "\">Prev</a></div></body></html>"
 }
 
@@ -336,6 +343,9 @@ func c01Enumerate(tier string, emit func(*eng.Case)) {
 			for _, pg := range c01Pg {
 				for algo := 0; algo < 2; algo++ {
 					emit(&eng.Case{Kind: "pager", HTML: c01PagerDoc(href), URL: pg, Algo: algo, P: map[string]string{"doc": fmt.Sprintf("pager href=%q page=%q algo=%d", href, pg, algo)}})
+					if v[2] != 0 && v[0] == 0 && v[1] == 0 {
+						emit(&eng.Case{Kind: "pager", HTML: c01PagerDoc("ALL:" + href), URL: pg, Algo: algo, P: map[string]string{"doc": fmt.Sprintf("pager (all entries linked) href=%q page=%q algo=%d", href, pg, algo)}})
+					}
 				}
 			}
 			return
